@@ -307,6 +307,7 @@ def merge_pairs(run, tier):
         run.cov["evaluations"] += len(pairs) * len(env.specs(kind=kind))
         run.cov["traces_validated_against_impl"] += len(pairs) * len(env.specs(kind=kind))
         run.cov.setdefault("merge_pairs_replayed", {})[kind] = len(pairs)
+    equal_but_differently_typed_pairs(run, tier)
     # the two deviation flags must have witnesses
     for flag, tier_ in (("Dev_NoneIsNoop", "quick"), ("Dev_PyEqKeepsOld", "eq")):
         consts = {"Kind": '"d"', "Tier": f'"{tier_}"', "SampleK": "1000000", "Dev_NoneIsNoop": "FALSE", "Dev_PyEqKeepsOld": "FALSE"}
@@ -417,6 +418,41 @@ def sync_mechanism(run, tier):
     if r2.violated != "P_C04_AppliedToCurrent":
         run.machinery_error(f"deviation flag Dev_NestedNoLoad of Sync.tla has no witness ({r2.violated})")
     run.cov.setdefault("deviation_witnesses", {})["Dev_NestedNoLoad"] = str(r2.violated)
+    # a write through a retained child after another handle changed only a leaf TYPE (1 -> True) must not clobber it
+    equal_but_differently_typed_pairs(run, tier)
+
+
+def equal_but_differently_typed_pairs(run, tier):
+    """Merge.tla over the atoms {1, True}: every pair (old, new) that differs only in leaf types which Python's ==
+    conflates is checked by TLC and (sampled) replayed: the reload must pick the new types up, and a write through a
+    retained child afterwards must not store the stale ones back (C02 / C04 / C12)."""
+    for kind in ("d", "l"):
+        consts = {"Kind": f'"{kind}"', "Tier": '"eq"', "SampleK": "6" if tier == "quick" else "1",
+                  "Dev_NoneIsNoop": "FALSE", "Dev_PyEqKeepsOld": "FALSE"}
+        cfg = tlc.cfg_text(constants=consts, invariants=["C02_MergeEqualsNew", "C02_HandlesKept"], action_constraints=["ExportEq"])
+        res = tlc.run("MC_Merge", cfg, name=f"merge-eq-{kind}", seed=common.seed(), timeout=2400)
+        if not res.ok:
+            run.machinery_error(f"TLC MC_Merge eq {kind}: {res.violated} {res.errors[:2]} {res.tail(8)}")
+            continue
+        run.add_tlc(res, f"Merge.tla pairs over {{1, True}} kind={kind}")
+        pairs = [(val.norm(r["old"]), val.norm(r["new"])) for r in res.records("PAIR")]
+        if not pairs:
+            run.machinery_error(f"MC_Merge eq {kind}: no equal-but-differently-typed pair exported")
+        for (o, n) in pairs:
+            run._distinct.add(("eqpair", val.canon(o), val.canon(n)))
+        jobs = []
+        for spec in env.specs(kind=kind):
+            for i, ch in enumerate(common.chunks(pairs, 3)):
+                jobs.append((spec.name, ch, common.seed() * 100 + i))
+        for out in common.pmap(_merge_job, jobs):
+            for v in out:
+                if v["aspect"] == "harness":
+                    run.machinery_error(v["detail"])
+                else:
+                    run.violation(v)
+        run.cov["evaluations"] += len(pairs) * len(env.specs(kind=kind))
+        run.cov["traces_validated_against_impl"] += len(pairs) * len(env.specs(kind=kind))
+        run.cov.setdefault("equal_but_differently_typed_pairs_replayed", {})[kind] = len(pairs)
 
 
 def buffered_histories(run, prop, tier):
